@@ -17,7 +17,7 @@ from ..codec import CodecRegistry
 from ..store import Store, current_timestamp
 from ..structures import CodecProtocol, ProtocolRef, FileCodecProtocol, DDSException
 from ..structures import PyHash, DDSPath, GenericLocation, SupportedType as ST
-from ..structures_utils import SupportedTypeUtils as STU
+from ..structures_utils import SupportedTypeUtils as STU, DDSPathUtils
 
 _logger = logging.getLogger(__name__)
 
@@ -226,6 +226,9 @@ class DBFSStore(Store):
         return self._fetch_meta(key) is not None
 
     def sync_paths(self, paths: "OrderedDict[DDSPath, PyHash]") -> None:
+        for dds_p in paths:
+            # Refuses the paths that pathlib would silently normalize to another path ('.' and '..' segments)
+            DDSPathUtils.create(dds_p)
         if self._commit_type == CommitType.NO_COMMIT:
             return
         # This is a brute force approach that copies all the data and writes extra meta data.
@@ -291,6 +294,7 @@ class DBFSStore(Store):
         res = OrderedDict()
         # This is a brute force approach that copies all the data and writes extra meta data.
         for dds_p in paths:
+            DDSPathUtils.create(dds_p)
             # TODO: this is the same code as sync_path, factorize
             # Look for the redirection file associated to this file
             # The paths are /_dds_meta/path
